@@ -279,7 +279,9 @@ func classifySinks(p *core.Prog, h *handlerInfo, sanitizer *ssa.Function) ([]sin
 				}
 			case appendStyle(name) && len(sx.Args(c)) >= 1 && lineBufArg(fn, bufs[fn], c):
 				switch {
-				case strings.HasPrefix(name, "strconv.AppendInt"), strings.HasPrefix(name, "strconv.AppendUint"), strings.HasPrefix(name, "strconv.AppendBool"), strings.HasPrefix(name, "strconv.AppendFloat"):
+				case strings.HasPrefix(name, "strconv.AppendFloat"):
+					s.Class = "closed:float"
+				case strings.HasPrefix(name, "strconv.AppendInt"), strings.HasPrefix(name, "strconv.AppendUint"), strings.HasPrefix(name, "strconv.AppendBool"):
 					s.Class = "closed:number"
 				case name == "(time.Time).AppendFormat":
 					if lay, ok := sx.ConstString(args[len(args)-1]); ok {
